@@ -656,10 +656,10 @@ def run(ctx: Ctx) -> None:
         nsets = len(rule_sets(rule_alphabet(nl), kmax))
         # finders on every 3-label dictionary: all RNG decisions for <= 3 rules, <= 2 deviations otherwise
         shards_d = [(nl, kmax, i, None, 2) for i in range(nsets)]
-        # 4-label family (last label: no rule or the rule (0, 1)): pruning for all of them,
+        # 4-label family (last label carries the rule (0, 1)): pruning for all of them,
         # finders with <= 1 deviation on those with <= 4 rules
         nsets4 = len(rule_sets(rule_alphabet(4), 2))
-        last = [[], [[0, 1]]]
+        last = [[[0, 1]]]
         shards_d += [(4, 2, i, last, -1) for i in range(nsets4)]
         db_plans = [(3, 4, False), (4, 3, True), (3, 5, "edges")]
     ctx.bounds = {"dictionaries": {"labels": [s[0] for s in shards_d[:1]] + ([4] if not ctx.quick else []), "rules_per_label": 2, "arity": 2},
